@@ -6,6 +6,7 @@ import (
 	"fmt"
 	"os"
 	"sync"
+	"sync/atomic"
 
 	seccomp "github.com/elastic/go-seccomp-bpf"
 
@@ -21,6 +22,7 @@ import (
 // calling property owns.
 type compileRun struct {
 	ctx     *evid.Ctx
+	seq     int64
 	classes map[string]bool
 	mu      sync.Mutex
 	progs   map[[16]byte]struct{}
@@ -85,6 +87,13 @@ func progHash(p []cbpf.Insn) [16]byte {
 
 // one checks one policy; scope is a label used in keys and samples.
 func (r *compileRun) one(scope string, a *refsem.Arch, p *seccomp.Policy, o engine.Options) *engine.Outcome {
+	// every third policy is compiled on a policy value that was assembled in an earlier shape before (a correct compiler
+	// keeps nothing inside the value; one that memoises does)
+	if n := atomic.AddInt64(&r.seq, 1); n%3 == 0 && o.Prior == nil {
+		o.Staged = true
+		o.StagedVariant = int(n / 3)
+		r.ctx.Count("policies_compiled_on_a_previously_assembled_value", 1)
+	}
 	out := engine.CheckPolicy(a, p, o)
 	r.ctx.Count("policies", 1)
 	r.ctx.Count("events", int64(out.Events))
